@@ -49,28 +49,35 @@ func prog(p []fetch) string {
 func (s *scen) name() string { return fmt.Sprintf("table: w1=%s w2=%s", prog(s.W1), prog(s.W2)) }
 
 func scenarios(tier string) []scen {
-	P := 1
 	answers := []byte{'k', 'f'}
 	if tier == "thorough" {
-		P = 2
 		answers = []byte{'k', 'f', 's'}
 	}
-	var kinds []fetch
-	for h := range hosts {
-		for _, a := range answers {
-			kinds = append(kinds, fetch{h, a})
+	kindsOf := func(answers []byte) (k []fetch) {
+		for h := range hosts {
+			for _, a := range answers {
+				k = append(k, fetch{h, a})
+			}
 		}
+		return
 	}
 	var out []scen
 	// worker 1: a host answers 429, the worker comes back to it (the retry, or the next asset). The hosts are
 	// interchangeable (nothing in the limiter looks at the name), so worker 1's host is fixed
-	for h := 0; h < 1; h++ {
-		w1 := []fetch{{h, 'f'}, {h, 'k'}}
-		for _, x := range kinds {
-			for _, y := range kinds {
-				for _, z := range kinds {
-					out = append(out, scen{W1: w1, W2: []fetch{x, y, z}, P: P})
-				}
+	w1 := []fetch{{0, 'f'}, {0, 'k'}}
+	kinds := kindsOf(answers)
+	for _, x := range kinds {
+		for _, y := range kinds {
+			for _, z := range kinds {
+				out = append(out, scen{W1: w1, W2: []fetch{x, y, z}, P: 1})
+			}
+		}
+	}
+	if tier == "thorough" { // two preemptions on the shorter programs (three fetches at P=2 run for hours)
+		k2 := kindsOf([]byte{'k', 'f'})
+		for _, x := range k2 {
+			for _, y := range k2 {
+				out = append(out, scen{W1: w1, W2: []fetch{x, y}, P: 2})
 			}
 		}
 	}
@@ -192,7 +199,7 @@ func main() {
 	hkit.Evidence(propID, a.Tier, "model_checking", map[string]any{
 		"states": total.States, "transitions": total.Transitions, "traces_validated_against_impl": total.Executions,
 		"samples": []any{total.Sample}, "exhaustive": total.Exhaustive, "scenarios": len(ss), "distinct_outcomes": len(outcomes),
-		"explanation": "part C: the real BucketManager bounded to 2 hosts with two workers under the controlled scheduler and virtual clock: worker 1 fetches a host that answers 429 and comes back to it (it waits out the penalty), worker 2 runs every program of three fetches over three hosts x answers {200, 429; thorough also 503}; every interleaving with at most P preemptions (quick 1, thorough 2); at every step the table holds at most 2 hosts",
+		"explanation": "part C: the real BucketManager bounded to 2 hosts with two workers under the controlled scheduler and virtual clock: worker 1 fetches a host that answers 429 and comes back to it (it waits out the penalty), worker 2 runs every program of three fetches over three hosts x answers {200, 429; thorough also 503}; every interleaving with at most 1 preemption (thorough: also every program of two fetches with at most 2); at every step the table holds at most 2 hosts",
 	}, []string{"part C: a fetch is Wait(host) followed by the report of its answer, as the archiver does; the clean-up loop runs (5 min period) but the runs end before it fires"}, hkit.Violations())
 	fmt.Printf("C16 %s (part C): %d scenarios, %d executions, %d states, %d transitions, %d distinct outcomes, exhaustive=%v\n", a.Tier, len(ss), total.Executions, total.States, total.Transitions, len(outcomes), total.Exhaustive)
 	hkit.Exit()
